@@ -10,6 +10,7 @@ package simsync
 import (
 	"runtime"
 	"sync"
+	"testing/synctest"
 	"unsafe"
 
 	"verif/zsim"
@@ -92,6 +93,18 @@ func (m *Mutex) Lock() {
 			runtime.Goexit()
 		}
 		return
+	} else if zsim.OnRoot() {
+		// The root goroutine runs while every task is parked or gone; real
+		// goroutines of the code under test (flush loops) may hold the mutex for
+		// a moment. If it does not come free while they run to their next
+		// blocking point, it never will.
+		for i := 0; i < 100; i++ {
+			if m.mu.TryLock() {
+				return
+			}
+			synctest.Wait()
+		}
+		zsim.RootLockStuck("a sync.Mutex")
 	}
 	m.mu.Lock()
 }
